@@ -132,16 +132,12 @@ def _file_sig(path: str) -> str:
 
 
 def _deps_fresh(deps: list[str]) -> bool:
-    """every compiled dependency exists and is not older than its source"""
-    for d in deps:
-        vo = os.path.join(COQ, d)
-        v = vo[:-1]
-        try:
-            if os.path.getmtime(vo) < os.path.getmtime(v):
-                return False
-        except OSError:
-            return False
-    return True
+    """make's own verdict (question mode: nothing is written): every compiled dependency is up to
+    date with respect to its sources AND to everything it was compiled against"""
+    if not deps:
+        return True
+    rc, _ = _run(["make", "-q"] + deps, COQ, 300)
+    return rc == 0
 
 
 def translate() -> str:
